@@ -122,6 +122,18 @@ Qed.
 Theorem out_protocol_shape_proof : shallow_copy_is_dict_swap && ufunc_swaps_only_out = true.
 Proof. vm_compute. reflexivity. Qed.
 
+(* scipy operands: in-place scipy methods run on a private copy only; dense results are fresh allocations *)
+Definition nonempty {A} (l : list A) : bool := match l with [] => false | _ => true end.
+
+Theorem scipy_copy_discipline_proof :
+  nonempty scipy_inplace_sites && forallb (fun p => snd p) scipy_inplace_sites = true.
+Proof. vm_compute. reflexivity. Qed.
+
+Theorem dense_results_fresh_proof :
+  nonempty dense_result_may_alias && forallb (fun p => negb (snd p)) dense_result_may_alias
+  && todense_allocates_first && todense_returns_only_allocation = true.
+Proof. vm_compute. reflexivity. Qed.
+
 Example out_swap_example :
   let h := fun i => match i with 0 => 10 | 1 => 11 | _ => 12 end in
   shallow_copy_of nat h 0 2 0 = 12 /\ shallow_copy_of nat h 0 2 1 = 11 /\ shallow_copy_of nat h 0 2 2 = 12.
